@@ -132,10 +132,14 @@ class CodeData(DataclassHideDefault):
         Iterates through all the code data which are included,
         by processing the arguments recursively.
         """
-        for block in self.blocks:
-            for instruction in block:
-                arg = instruction.arg
-                if isinstance(arg, Constant) and isinstance(arg.constant, CodeData):
+        # Every nested code data once, also if it is used by multiple instructions or
+        # is only kept as an additional arg because no instruction uses it.
+        seen = set()
+        args = [instruction.arg for block in self.blocks for instruction in block]
+        for arg in (*args, *self._additional_args):
+            if isinstance(arg, Constant) and isinstance(arg.constant, CodeData):
+                if id(arg.constant) not in seen:
+                    seen.add(id(arg.constant))
                     yield arg.constant
 
     def all_code_data(self) -> Iterator[CodeData]:
